@@ -37,7 +37,7 @@ PLANS["C15"] = {
              "sequence (sweep) or distinct log2-bucketed feature vector (random)."),
     "assumptions": ["hook H4 (verif_waste) reports the real consumed prefix and container length",
                     "exhaustive only up to the stated sequence length; random beyond"],
-    "required_features": ["c15.slides_observed", "c15.smallvec_inline_to_heap", "c15.steps_with_nonzero_prefix"],
+    "required_features": ["c15.slides_observed", "c15.smallvec_inline_to_heap", "c15.steps_with_nonzero_prefix", "c15.clone_clone_from_swap_from_container_ops"],
     "quick": [R("deque-c15", "dbg", sweep_len=8, cases=200000),
               R("deque-c15", "rel", sweep_len=7, cases=400000)],
     "thorough": [R("deque-c15", "dbg", sweep_len=9, cases=4000000),
@@ -57,7 +57,8 @@ PLANS["C16"] = {
              "sequence (sweep) or distinct bucketed feature vector (random)."),
     "assumptions": ["keys are strictly increasing in generated pushes (whole-item convention: erasing never reorders distinct keys)",
                     "exhaustive only up to the stated sequence length and key universe; random beyond"],
-    "required_features": ["c16.middle_removals", "c16.pops", "c16.bad_push_panics_observed", "c16.successful_finds", "c16.histories_with_32_or_more_middle_removals"],
+    "required_features": ["c16.middle_removals", "c16.pops", "c16.bad_push_panics_observed", "c16.successful_finds", "c16.histories_with_32_or_more_middle_removals",
+                          "c16.rejected_pushes_then_history_continues", "c16.histories_starting_from_SortedDeque_new_of_a_filled_container"],
     "quick": [R("deque-c16", "dbg", sweep_len=7, universe=5, cases=200000),
               R("deque-c16", "rel", sweep_len=6, universe=5, cases=400000)],
     "thorough": [R("deque-c16", "dbg", sweep_len=8, universe=5, cases=400000),
@@ -97,6 +98,8 @@ CODEC_REQ = [
     "codec.enc.method.Borrow", "codec.enc.method.Copy", "codec.enc.method.Anchored", "codec.enc.method.Read",
     "codec.dec.method.Borrow", "codec.dec.method.Copy", "codec.dec.method.Anchored", "codec.dec.method.Read",
     "codec.enc.method.AnchoredSplitHold", "codec.dec.method.AnchoredSplitHold",
+    "codec.enc.method.SinkCopy", "codec.enc.method.SinkBorrow",
+    "codec.reads_retried_after_a_transient_failure",
     "codec.reuse.encoder.anchored_slices_carried_into_the_next_message",
     "codec.reuse.decoder.anchored_slices_carried_into_the_next_message",
     "codec.enc.drain.consume", "codec.enc.drain.advance_slices", "codec.enc.drain.read",
@@ -188,7 +191,7 @@ IOVEC_REQ = [
 PLANS["C03"] = {
     "level": "exploration",
     "technique": "shadow-pipe reference monitor evaluated on every live iovec after every operation of random multi-iovec histories (dbg incl. crate rep-checks; rel volume, ASan and Miri in the thorough tier)",
-    "rule": IOVEC_RULE, "assumptions": IOVEC_ASSUME, "required_features": IOVEC_REQ + ["iovec.single_advance_across_more_than_1024_slices"],
+    "rule": IOVEC_RULE, "assumptions": IOVEC_ASSUME, "required_features": IOVEC_REQ + ["iovec.single_advance_across_more_than_1024_slices", "iovec.pushes_through_ZeroCopySink", "iovec.consumption_through_StableIovec", "iovec.StableIovec_flatten_views_compared"],
     "quick": [R("iovec", "dbg", cases=300000, focus="C03"),
               R("iovec", "rel", cases=300000, focus="C03")],
     "thorough": [R("iovec", "dbg", cases=3000000, focus="C03"),
@@ -199,7 +202,7 @@ PLANS["C03"] = {
 PLANS["C04"] = {
     "level": "exploration",
     "technique": "shadow-pipe monitor with placeholder marks: observed bytes never reach the earliest pending placeholder, accessor Ok/Err status == (no placeholder pending), placeholder-heavy random histories with out-of-order fills",
-    "rule": IOVEC_RULE, "assumptions": IOVEC_ASSUME, "required_features": IOVEC_REQ + ["iovec.rejected_wrong_size_backfills", "iovec.histories_with_32_or_more_placeholders_in_flight"],
+    "rule": IOVEC_RULE, "assumptions": IOVEC_ASSUME, "required_features": IOVEC_REQ + ["iovec.rejected_wrong_size_backfills", "iovec.histories_with_32_or_more_placeholders_in_flight", "iovec.clones_taken_while_a_placeholder_was_pending"],
     "quick": [R("iovec", "dbg", cases=300000, focus="C04"),
               R("iovec", "rel", cases=300000, focus="C04")],
     "thorough": [R("iovec", "dbg", cases=3000000, focus="C04"),
@@ -326,7 +329,7 @@ PLANS["C12"] = {
     "assumptions": ["exhaustive only for the stated word alphabet and length; random beyond"],
     "required_features": ["tlv.c12.accepted", "tlv.c12.rejected", "tlv.c12.accepted_empty_messages", "tlv.c12.lookups_of_repeated_tags",
                           "tlv.c12.input.n huge", "tlv.c12.input.last offset at payload end +-1", "tlv.c12.input.offsets decreasing",
-                          "tlv.c12.input.tags decreasing", "tlv.c12.truncation_points"],
+                          "tlv.c12.input.tags decreasing", "tlv.c12.truncation_points", "tlv.c12.iterator_adaptors_compared_with_indexed_access"],
     "quick": [R("tlv-c12", "dbg", sweep_words=8, cases=30000000)],
     "thorough": [R("tlv-c12", "dbg", sweep_words=10, cases=400000000),
                  R("tlv-c12", "rel", sweep=0, cases=1000000000),
@@ -349,7 +352,7 @@ PLANS["C14"] = {
                     "the crate's vouching parameters are the ones in its source; a wrong voucher is any other 64-bit value (the voucher map is a bijection)"],
     "required_features": ["vtime.accepted", "vtime.rejected_bad_voucher", "vtime.rejected_outside_window", "vtime.rejected_before_epoch",
                           "vtime.window_or_epoch_edge_cases", "vtime.base_within_70000_of_u64_max", "vtime.now_cases", "vtime.now_provider_error_propagated",
-                          "vtime.new_or_die_compared_with_new", "vtime.now_or_die_cases"],
+                          "vtime.new_or_die_compared_with_new", "vtime.now_or_die_cases", "vtime.now_with_a_provider_that_takes_3ms"],
     "quick": [R("vtime", "dbg", cases=200000000, now_cases=400000)],
     "thorough": [R("vtime", "dbg", cases=3000000000, now_cases=4000000),
                  R("vtime", "rel", cases=8000000000, now_cases=4000000),
@@ -509,6 +512,7 @@ PLANS["C10"] = {
     "assumptions": ["unbounded stream length restated as: flat observed maxima at several lengths under one fixed constant (8 MiB)",
                     "the counters are process-wide, so each history runs in a single-threaded process"],
     "required_features": ["iovec.drop_accounting_checked", "codec.drop_accounting_checked", "stream.drop_accounting_checked", "stream.drained_every_call",
+                          "stream.anchored_slices_read_through_a_foreign_arena",
                           "stream.pipeline", "iovec.clones", "iovec.takes", "iovec.held_anchored_slice_pushed_later",
                           "stream.records_through_one_stream_reader", "stream.records_through_recycled_decoder"],
     "quick": [R("iovec", "dbg", cases=200000, focus="C10"),
